@@ -6,6 +6,7 @@ package canarystyle
 import (
 	"github.com/openkruise/rollouts/api/v1beta1"
 	batchcontext "github.com/openkruise/rollouts/pkg/controller/batchrelease/context"
+	"github.com/openkruise/rollouts/pkg/controller/batchrelease/control"
 	"github.com/openkruise/rollouts/pkg/util"
 	"github.com/openkruise/rollouts/pkg/verifrt"
 	metav1 "k8s.io/apimachinery/pkg/apis/meta/v1"
@@ -91,4 +92,42 @@ func VerifC11_CanaryStylePlaneInitializeRecordsTheWorkload() {
 	}
 	verifrt.Assert(rc.newStatus.ObservedWorkloadReplicas == ctl.stable.Replicas, "C11.canarystyle.plane.initialize.observesTheWorkloadSize")
 	verifrt.Assert(rc.newStatus.StableRevision == "rev-1" && rc.newStatus.UpdateRevision == "rev-2", "C11.canarystyle.plane.initialize.observesTheRevisions")
+}
+
+// VerifC11_CanaryStylePlaneClassifiesWorkloadChanges: the canary style's verdict about the stable Deployment at the
+// top of every round, ranked as for the other styles: still reconciling, promoted (nothing to do), then a change of
+// size reported as such — with the new size — whatever else changed, then a template change.
+func VerifC11_CanaryStylePlaneClassifiesWorkloadChanges() {
+	rc, ctl := c11Plane()
+	info := ctl.stable
+	info.Generation = 5
+	info.Status.ObservedGeneration = int64(verifrt.IntRange("status.observedGeneration", 4, 5))
+	info.Status.UpdatedReplicas = int32(verifrt.IntRange("stable.updated", 0, 2000))
+	info.Status.UpdateRevision = []string{"rev-2", "rev-3"}[verifrt.IntRange("wl.updateRevision", 0, 1)]
+	rc.newStatus.UpdateRevision = []string{"", "rev-2"}[verifrt.IntRange("observed.updateRevision", 0, 1)]
+	rc.newStatus.ObservedWorkloadReplicas = int32(verifrt.IntRange("observed.replicas", -1, 1000))
+	event, got, err := rc.SyncWorkloadInformation()
+	verifrt.Assert(err == nil && got != nil, "C11.canarystyle.plane.sync.noError")
+	if err != nil || got == nil {
+		return
+	}
+	stable := info.Status.ObservedGeneration >= info.Generation
+	promoted := info.Status.Replicas == info.Status.UpdatedReplicas
+	scaled := rc.newStatus.ObservedWorkloadReplicas != -1 && info.Replicas != rc.newStatus.ObservedWorkloadReplicas
+	changed := rc.newStatus.UpdateRevision != "" && info.Status.UpdateRevision != rc.newStatus.UpdateRevision
+	switch {
+	case !stable:
+		verifrt.Assert(event == control.WorkloadStillReconciling, "C11.canarystyle.plane.sync.stillReconcilingFirst")
+	case promoted:
+		verifrt.Assert(event == control.WorkloadNormalState, "C11.canarystyle.plane.sync.promotedNeedsNothing")
+	case scaled:
+		verifrt.Cover("scaled")
+		verifrt.Assert(event == control.WorkloadReplicasChanged, "C11.canarystyle.plane.sync.sizeChangeAlwaysReportedAsSuch")
+		verifrt.Assert(got.Replicas == info.Replicas, "C11.canarystyle.plane.sync.sizeChangeCarriesTheNewSize")
+	case changed:
+		verifrt.Cover("template-changed")
+		verifrt.Assert(event == control.WorkloadPodTemplateChanged && got.Status.UpdateRevision == info.Status.UpdateRevision, "C11.canarystyle.plane.sync.templateChangeReported")
+	default:
+		verifrt.Assert(event != control.WorkloadReplicasChanged && event != control.WorkloadPodTemplateChanged && event != control.WorkloadStillReconciling, "C11.canarystyle.plane.sync.nothingReportedWithoutAChange")
+	}
 }
